@@ -173,37 +173,41 @@ def make_whole(cell: str = "cubic", bonds: str = "pair"):
     return r
 
 
-def _replay_whole(cell, n_atoms, bl):
-    def rep(name, vals):
-        cellv = [[float(x) for x in r] for r in c05.CELLS[cell]]
-        pos = [[vals.get(f"p{i}{k}", 0.0) or 0.0 for k in range(3)] for i in range(n_atoms)]
-        script = f'''
-import sys, itertools, numpy as np, mdtraj as md
-from mdtraj.core import element as el
-cell = np.array({cellv!r}); pos = np.array([{pos!r}], dtype=np.float32); bonds = {list(bl)!r}
-top = md.Topology(); ch = top.add_chain(); r = top.add_residue("MOL", ch)
-atoms = [top.add_atom("C%d" % i, el.carbon, r) for i in range({n_atoms})]
-for a, b in bonds: top.add_bond(atoms[a], atoms[b])
-t = md.Trajectory(pos, top); t.unitcell_vectors = cell[None]
-sb = np.array(bonds, dtype=np.int32)
-w = t.make_molecules_whole(inplace=False, sorted_bonds=sb)
-bad = 0
-for a, b in bonds:
-    d = w.xyz[0, b].astype(float) - w.xyz[0, a].astype(float)
-    best = min(np.linalg.norm(d + np.array(m) @ cell) for m in itertools.product(range(-3, 4), repeat=3))
-    print("bond", a, b, "length after", np.linalg.norm(d), "minimum image", best)
-    bad += np.linalg.norm(d) - best > 1e-3
-n = np.linalg.solve(cell.T, (w.xyz[0] - pos[0]).astype(float).T).T
-print("moves in cell units", n.round(3).tolist())
-bad += np.abs(n - n.round()).max() > 1e-2
+_WHOLE_REPLAY = '''
+import sys, math, itertools, numpy as np
+sys.path.insert(0, {verif!r})
+from vtlib.pxilower import lower
+cell = np.array({cellv!r}); bonds = {bonds!r}; n_atoms = {n_atoms}
+src = lower(open({pxi!r}).read())
+ns = {{"np": np, "UNINIT": lambda n: [float("nan")] * n, "roundf": lambda x: float(math.floor(abs(x) + 0.5) * (1 if x >= 0 else -1)), "floorf": lambda x: float(math.floor(x)),
+      "find_closest_contact": lambda *a: (0, 0, 0.0)}}
+exec(compile(src, "image_molecules.pxi (lowered)", "exec"), ns)      # CONCRETE execution of the lowered current source (the binary cannot be rebuilt here)
+vol = abs(np.linalg.det(cell)); w = min(vol / np.linalg.norm(np.cross(cell[(i + 1) % 3], cell[(i + 2) % 3])) for i in range(3))
+rng = np.random.RandomState(7); bad = 0; inv = np.linalg.inv(cell)
+for trial in range(300):
+    Q = (rng.rand(1, 3) - 0.5) * 6 * np.abs(cell).max() + (rng.rand(n_atoms, 3) - 0.5) * 0.45 * w          # a compact molecule ...
+    P0 = Q + rng.randint(-3, 4, (n_atoms, 3)) @ cell; P0[0] = Q[0]                                             # ... with its atoms scattered over images
+    P = P0.copy(); box = cell.copy()
+    ns["make_whole"](P, box, np.array(bonds, dtype=np.int32))
+    n = (P - P0) @ inv
+    ok = np.abs(n - np.round(n)).max() < 1e-6 and np.array_equal(box, cell)
+    for a, b in bonds:
+        ok = ok and np.allclose(P[b] - P[a], Q[b] - Q[a], atol=1e-6)
+    bad += not ok
+print("trials with a non-lattice move or a bond left stretched:", bad)
 sys.exit(1 if bad else 0)
 '''
+
+
+def _replay_whole(cell, n_atoms, bl):
+    def rep(name, vals):
         import subprocess, sys as _s, tempfile
+        script = _WHOLE_REPLAY.format(verif=os.path.dirname(os.path.dirname(os.path.abspath(__file__))), cellv=[[float(x) for x in r] for r in c05.CELLS[cell]], bonds=[list(b) for b in bl], n_atoms=n_atoms, pxi=PXI)
         with tempfile.NamedTemporaryFile("w", suffix=".py", delete=False) as fh:
             fh.write(script)
         r = subprocess.run([_s.executable, fh.name], capture_output=True, text=True)
         os.unlink(fh.name)
-        return r.returncode == 1, script + "\n# (installed extension) " + (r.stdout + r.stderr)[-400:].replace("\n", "\n# "), name.split("[")[0]
+        return r.returncode == 1, script + "\n# " + (r.stdout + r.stderr)[-400:].replace("\n", "\n# "), name.split("[")[0]
     return rep
 
 
@@ -254,7 +258,49 @@ def wrap(cell: str = "cubic", with_whole: bool = False):
         # "wrapped into the box": the brick [0,a_x) x [0,b_y) x [0,c_z) spanned by the diagonal of the (lower-triangular) cell matrix --
         # an equally valid unit cell of the same lattice; for orthorhombic cells this is the cell itself
         G.add(f"centre_inside_box[{name}]", cons, z3.And(*[z3.And(cen[k] >= -eps, cen[k] < S.rat(cellv[k][k]) + eps) for k in range(3)]), {})
-    r = G.run(None)
+    r = G.run(_replay_wrap(cell, with_whole))
     r["lowered_lines"] = nlines
     r["wall_s"] = round(time.time() - t0, 2)
     return r
+
+
+_WRAP_REPLAY = '''
+import sys, math, numpy as np
+sys.path.insert(0, {verif!r})
+from vtlib.pxilower import lower
+cell = np.array({cellv!r}); with_whole = {with_whole}
+src = lower(open({pxi!r}).read())
+ns = {{"np": np, "UNINIT": lambda n: [float("nan")] * n, "roundf": lambda x: float(np.float32(math.floor(abs(x) + 0.5) * (1 if x >= 0 else -1))), "floorf": lambda x: float(math.floor(x)),
+      "find_closest_contact": lambda pos, g1, g2, n1, n2, box: (int(g1[0]), int(g2[0]), 0.0)}}
+exec(compile(src, "image_molecules.pxi (lowered)", "exec"), ns)      # CONCRETE execution of the lowered current source (the binary cannot be rebuilt here)
+rng = np.random.RandomState(5); bad = 0
+inv = np.linalg.inv(cell)
+for trial in range(200):
+    P0 = (rng.rand(5, 3) - 0.5) * 8 * np.abs(cell).max(); P = P0.copy(); box = cell.copy()
+    if with_whole:                                   # bonded atoms start close (any image)
+        P0[1] = P0[0] + (rng.rand(3) - 0.5) * 0.2 + rng.randint(-2, 3, 3) @ cell; P0[3] = P0[2] + (rng.rand(3) - 0.5) * 0.2 + rng.randint(-2, 3, 3) @ cell; P = P0.copy()
+    ns["image_frame"](P, box, np.array([0, 1], dtype=np.int32), np.array([2], dtype=np.int32), np.array([2, 3, 4], dtype=np.int32), np.array([2, 3], dtype=np.int32),
+                      np.array([(0, 1), (2, 3)], dtype=np.int32) if with_whole else None)
+    d = P - P0; T = d[0]
+    n = (d - T) @ inv
+    ok = np.abs(n - np.round(n)).max() < 1e-6 and np.array_equal(box, cell)
+    if not with_whole: ok = ok and np.allclose(d[1], d[0]) and np.allclose(d[3], d[2])
+    ok = ok and np.allclose((P[0] + P[1]) / 2, np.diag(cell) / 2, atol=1e-5)
+    for mol in ((2, 3), (4,)):
+        c = P[list(mol)].mean(0); ok = ok and all(-1e-5 <= c[k] < cell[k, k] + 1e-5 for k in range(3))
+    bad += not ok
+print("trials violating lattice-move / rigid-molecule / centring:", bad)
+sys.exit(1 if bad else 0)
+'''
+
+
+def _replay_wrap(cell, with_whole):
+    def rep(name, vals):
+        import subprocess, sys as _s, tempfile
+        script = _WRAP_REPLAY.format(verif=os.path.dirname(os.path.dirname(os.path.abspath(__file__))), cellv=[[float(x) for x in r] for r in c05.CELLS[cell]], with_whole=with_whole, pxi=PXI)
+        with tempfile.NamedTemporaryFile("w", suffix=".py", delete=False) as fh:
+            fh.write(script)
+        r = subprocess.run([_s.executable, fh.name], capture_output=True, text=True)
+        os.unlink(fh.name)
+        return r.returncode == 1, script + "\n# " + (r.stdout + r.stderr)[-400:].replace("\n", "\n# "), name.split("[")[0]
+    return rep
